@@ -39,6 +39,68 @@ def configs(rng, reaction, label):
         yield {"insert_parent_helicities": 1}
 
 
+def cg_expansion_records(chk, name, tier):
+    """The 'equivalently' reading of C03: expand random canonical LS coefficients with the Clebsch-Gordan factors
+    into helicity couplings; all helicity chains that share one coefficient symbol must then require the SAME value
+    (up to the sign the model attaches).  Uses only the abstract transitions of the canonical reaction and sympy's CG
+    values; eta from qrules does not enter."""
+    import ampform
+    import sympy as sp
+    from sympy.physics.quantum.cg import CG
+
+    rh = ampl.real_reaction(name, "helicity")
+    rc = ampl.real_reaction(name, "canonical-helicity")
+    mh = ampform.get_builder(rh).formulate()
+    rec_h = U.model_record(0, rh, mh, do_formula=False, do_parity=True, do_closure=False)
+    rng = random.Random(chk.seed + 77)
+
+    def chain_key(tr):   # states of all edges: what identifies a helicity configuration of a chain
+        return tuple(sorted((tuple(e["set"]), e["part"], e["hel2"]) for e in tr["edges"]))
+
+    def ls_key(tr):      # which canonical coefficient: particles and (L, S) of every node
+        return tuple(sorted((tuple(n["parent"]), n["L2"], n["S2"]) for n in tr["nodes"])) + tuple(sorted((tuple(e["set"]), e["part"]) for e in tr["edges"] if len(e["set"]) > 1))
+
+    def cg_product(tr):
+        edges = {tuple(e["set"]): e for e in tr["edges"]}
+        tree = list(edges)
+        prod = sp.Integer(1)
+        for n in tr["nodes"]:
+            P = tuple(n["parent"])
+            kids = sorted(c for c in tree if set(c) < set(P) and not any(set(c) < set(o) < set(P) for o in tree))
+            c1, c2 = edges[kids[0]], edges[kids[1]]
+            d = sp.Rational(c1["hel2"] - c2["hel2"], 2)
+            prod *= CG(sp.Rational(n["L2"], 2), 0, sp.Rational(n["S2"], 2), d, sp.Rational(edges[P]["spin2"], 2), d).doit()
+            prod *= CG(sp.Rational(c1["spin2"], 2), sp.Rational(c1["hel2"], 2), sp.Rational(c2["spin2"], 2), sp.Rational(-c2["hel2"], 2), sp.Rational(n["S2"], 2), d).doit()
+        return complex(sp.N(prod))
+
+    a = {}
+    val = {}
+    for tr in ampl.abstract_reaction(rc)["trs"]:
+        k = ls_key(tr)
+        if k not in a:
+            a[k] = complex(rng.uniform(-1, 1), rng.uniform(-1, 1))
+        val[chain_key(tr)] = val.get(chain_key(tr), 0) + a[k] * cg_product(tr)
+    recs = []
+    chains = rec_h["chains"]
+    trs = rec_h["trs"]
+    by_coef = {}
+    for i, (tr, ch) in enumerate(zip(trs, chains)):
+        if ch.get("found") and ch["coef"]:
+            by_coef.setdefault(tuple(ch["coef"]), []).append(i)
+    scale = max([abs(v) for v in val.values()] + [1e-9])
+    for coef, idx in by_coef.items():
+        ref = idx[0]
+        for j in idx[1:]:
+            vi, vj = val.get(chain_key(trs[ref])), val.get(chain_key(trs[j]))
+            if vi is None or vj is None:
+                continue
+            si, sj = chains[ref]["sign_num"], chains[j]["sign_num"]
+            d = abs(si * vj - sj * vi) / scale   # C = val_i / s_i must be the same for all chains of the class
+            recs.append({"kind": "cgexp", "id": f"cgexp:{name}:{ref}:{j}", "diff_q": int(min(round(d * 1e9), 2_000_000_000)),
+                         "nonzero": int(abs(vi) > 1e-9 * scale or abs(vj) > 1e-9 * scale)})
+    return recs
+
+
 def run(chk, replay=None):
     tier = chk.tier
     chk.assume("TLC/SANY", "projection of chain terms (vf/ampl.py)", "coefficient sharing is read off the observed model")
@@ -63,6 +125,16 @@ def run(chk, replay=None):
         etas = sorted({n["eta"] for n in rec["trs"][0]["nodes"] if n["eta"]})
         sig = f"{clause}:constrained-nodes={min(n_constrained, 2)}{'+' if n_constrained > 2 else ''}:{'unlike-eta' if len(etas) > 1 else 'like-eta'}"
         chk.violation(sig, f"{label} cfg={rec['cfg']}: chains {info[0]} and {info[1]} share a coefficient, signs {info[2]}, {info[3]}, required product of eta over the reversed nodes {info[4]}", {"label": label, "cfg": rec["cfg"], "trs": [rec["trs"][info[0] - 1], rec["trs"][info[1] - 1]]})
+    # the 'equivalently' clause on real reactions available in both formalisms (observation law)
+    cg = []
+    for nm in (["jpsi_ksp_sigma"] + (["jpsi_gpp_f2", "jpsi_gpp_f0"] if tier == "thorough" else [])):
+        cg += cg_expansion_records(chk, nm, tier)
+    if cg:
+        tvc = trace.validate("Trace_Observe", cg)
+        chk.add_tlc("trace_cg_expansion", tvc.res, traces=len(cg))
+        chk.part("cg_expansion", pairs=len(cg), stats=tvc.stats)
+        for clause, rid, info in tvc.rejects:
+            chk.violation(f"{clause}:{rid.split(':')[1]}", f"{rid}: chains sharing one coefficient require different coupling values under the Clebsch-Gordan expansion of random LS coefficients: {info}", {"record": rid})
     import copy
 
     # binding demonstration: flip one observed sign in a model that has partner pairs
